@@ -2,9 +2,9 @@
 import json, os
 import vlib
 
-QUICK = dict(KPoss="{1, 2}", ColOps='{"none", "addC1", "remB", "swap"}',
-             States1='{"same", "removed", "A1", "A2", "B1", "X"}', States2='{"same", "A1"}', States3='{"absent", "add1"}')
-THOROUGH = dict(KPoss="{1, 2, 3}", ColOps='{"none", "addC1", "addC2", "remB", "swap", "renB"}',
+QUICK = dict(KPoss="{1, 2}", ColOps='{"none", "addC1", "addC0", "remB", "remA", "swap"}',
+             States1='{"same", "removed", "A1", "B1", "X"}', States2='{"same", "A1"}', States3='{"absent", "add1"}')
+THOROUGH = dict(KPoss="{1, 2, 3}", ColOps='{"none", "addC1", "addC2", "addC0", "remB", "remA", "swap", "renB"}',
                 States1='{"same", "removed", "A1", "A2", "B1", "A1B1", "X"}', States2='{"same", "removed", "A1", "B1"}',
                 States3='{"absent", "add1", "add2"}')
 SMALL = dict(KPoss="{1, 2}", ColOps='{"none", "addC1", "remB"}',
@@ -19,7 +19,7 @@ def cfg(name, consts):
     return fn
 
 
-def generate(name, consts, scen, commit_every=5, scale_every=0, scale=130):
+def generate(name, consts, scen, commit_every=5, scale_every=0, scale=130, keep=None):
     """TLC enumerates the pairs, checks the laws and exports the expectations; the driver adds
     the configuration dimensions (commit path, cluster scaling to multi-block tables)."""
     raw = scen + ".raw"
@@ -28,6 +28,8 @@ def generate(name, consts, scen, commit_every=5, scale_every=0, scale=130):
     n = 0
     with open(raw) as f, open(scen, "w") as g:
         for i, line in enumerate(f):
+            if keep is not None and not keep(i):
+                continue
             d = json.loads(line)
             if commit_every and i % commit_every == 0:
                 d["commit"] = True
